@@ -37,6 +37,15 @@ MOTIONS = [(5, (0.0, 0.0, 0.0)), (13, (0.0, 0.0, 0.0)), (20, (1.0, 2.0, 3.0)), (
            (0, (1.0, 2.0, 3.0)), (0, (1000.0, 0.0, 0.0)), (27, (-300.0, 200.0, 100.0))]
 
 
+# thorough tier: every cube rotation (pure rotation and with a translation) and the nearly-aligned / generic rotations
+MOTIONS_T = MOTIONS + [(o, (0.0, 0.0, 0.0)) for o in range(1, 32) if (o, (0.0, 0.0, 0.0)) not in MOTIONS] \
+    + [(o, (-2.0, 0.5, 1.0)) for o in range(0, 24)] + [(o, (0.0, 0.0, -1000.0)) for o in (0, 9, 26, 30)]
+
+
+def motions_for(desc):
+    return MOTIONS_T if desc.get("mt") else MOTIONS
+
+
 def warmup():
     from . import c02, c09
     c02.warmup()
@@ -51,7 +60,14 @@ def enumerate_states(tier, seed):
         for d in gs.enumerate_pair(ta, tb, 1):
             if d["fa"] == 0:      # far-away offsets are produced by the motions themselves
                 d["k"] = "scene"
+                if tier == "thorough":
+                    d["mt"] = 1
                 states.append(d)
+        if tier == "thorough":
+            for d in gs.enumerate_pair(ta, tb, 2):
+                if d["fa"] == 0 and sum(1 for n in gs.COORDS if d[n] != 0) == 2:
+                    d["k"] = "scene"
+                    states.append(d)
         for pl in (16, 17):
             d = {"ta": ta, "tb": tb, "k": "scene"}
             d.update({n: 0 for n in gs.COORDS})
@@ -60,17 +76,22 @@ def enumerate_states(tier, seed):
     prim = ps.enumerate_states(list(ps.FUNCS), shifts=False)
     for d in prim:
         d["k"] = "prim"
+        if tier == "thorough":
+            d["mt"] = 1
     states += prim
-    return states, {"bound_completed": "scene lattice with <= 1 deviation (all 100 type pairs, + 2 penetrating placements) and all primitive pairs "
-                                       "of the 34 distance functions, each x swap x 8 rigid motions x 2 scalings", "exhaustive": True}
+    return states, {"bound_completed": ("scene lattice with <= 1 deviation (all 100 type pairs, + 2 penetrating placements) and all primitive pairs "
+                                        "of the 34 distance functions, each x swap x 8 rigid motions x 2 scalings" if tier != "thorough" else
+                                        "scene lattice with <= 2 deviations (all 100 type pairs; <= 1 deviation x %d rigid motions, 2 deviations x 8 rigid "
+                                        "motions, + 2 penetrating placements) and all primitive pairs of the 34 distance functions x %d rigid motions, "
+                                        "each also x swap x 2-3 scalings" % (len(MOTIONS_T), len(MOTIONS_T))), "exhaustive": True}
 
 
 def _viol(entry, kind, cls, detail):
     return {"kind": kind, "entry": entry, "sig": "%s:%s:%s" % (entry, kind, cls), "detail": detail}
 
 
-def G_of(m):
-    o, t = MOTIONS[m]
+def G_of(mot):
+    o, t = mot
     return sc.pose(o, np.array(t, dtype=float))
 
 
@@ -183,17 +204,18 @@ def run_scene(desc):
     for name in base:
         compare(name, base[name], o2.get(name), 1.0, L, "swap", cls, ctx, add)
     # rigid motions
-    for m in range(len(MOTIONS)):
-        G = G_of(m)
+    MOT = motions_for(desc)
+    for m in range(len(MOT)):
+        G = G_of(MOT[m])
         Lm = max(L, float(np.linalg.norm(G[:3, 3])))
         if Lm > 1.3e3 + L:
             continue
         Am, Bm = build_pair(spec, G)
         om, _ = queries(Am, Bm, judged, prim_ok, False)
         n_eval += len(om)
-        nontriv += 1 if MOTIONS[m][0] != 0 else 0
+        nontriv += 1 if MOT[m][0] != 0 else 0
         for name in base:
-            compare(name, base[name], om.get(name), 1.0, Lm, "motion%d" % m, cls, dict(ctx, motion=MOTIONS[m]), add)
+            compare(name, base[name], om.get(name), 1.0, Lm, "motion%d" % m, cls, dict(ctx, motion=MOT[m]), add)
     # scalings (only from unit-size scenes, so that the scaled scene stays in [1e-2, 1e2])
     if desc["sa"] in (0, 3) and desc["sb"] in (0, 3) and desc["pl"] not in (2, 3, 6, 13):
         for k in (0.05, 1e2):     # unit sizes 0.3..1.0 stay inside the domain [1e-2, 1e2]
@@ -280,19 +302,20 @@ def run_prim(desc):
                     add(_viol(name, "swap:scalar_differs", "prim", dict(ctx, original=d0, swapped=d1)))
             except Exception as e:  # noqa
                 add(_viol(name, "swap:exception:" + type(e).__name__, "prim", dict(ctx, exc=repr(e)[:200])))
-        for m in range(len(MOTIONS)):
-            G = G_of(m)
+        MOT = motions_for(desc)
+        for m in range(len(MOT)):
+            G = G_of(MOT[m])
             Lm = max(L, float(np.linalg.norm(G[:3, 3])))
             try:
                 Am, Bm = transform_prim(A, G), transform_prim(B, G)
                 dm, m1, m2 = ps.call(name, Am, Bm)
                 n_eval += 1
             except Exception as e:  # noqa
-                add(_viol(name, "motion:exception:" + type(e).__name__, "prim", dict(ctx, motion=MOTIONS[m], exc=repr(e)[:200])))
+                add(_viol(name, "motion:exception:" + type(e).__name__, "prim", dict(ctx, motion=MOT[m], exc=repr(e)[:200])))
                 continue
-            nontriv += 1 if MOTIONS[m][0] != 0 else 0
+            nontriv += 1 if MOT[m][0] != 0 else 0
             if not np.isfinite(dm) or abs(dm - d0) > 2 * tolk * Lm:
-                add(_viol(name, "motion:scalar_differs", "prim", dict(ctx, motion=MOTIONS[m], original=d0, transformed=dm, tol=2 * tolk * Lm)))
+                add(_viol(name, "motion:scalar_differs", "prim", dict(ctx, motion=MOT[m], original=d0, transformed=dm, tol=2 * tolk * Lm)))
         for k in (0.25, 4.0, 100.0):
             feats = [x for x in (A.min_feature(), B.min_feature()) if x is not None]
             if max(A.size(), B.size()) * k > 1.01e2 or (feats and min(feats) * k < 0.2) or L * k > 1.2e3:
